@@ -1,4 +1,4 @@
-import TR.Lemmas.Bulkhead
+import TR.Lemmas.Bulkhead2
 /-!
 # C07 — the bulkhead never loses capacity and rejects only by timeout
 -/
@@ -34,20 +34,54 @@ theorem admit_at_once (cfg : Cfg) (ops : List Op) (c : Nat)
 
 /-- One-step characterisation of rejection: a poll emits `err:timeout` for `c` only when
 (a) `c` was polled for the first time, no permit was free and `max_wait = 0`, or
-(b) `c` was queued, had not been handed a permit, and its deadline has been reached. -/
+(b) `c` was queued, had not been handed a permit, and its deadline has been reached;
+and then that result is the only thing the step emits (in particular no `inner_call`). -/
 theorem reject_only_by_timeout (cfg : Cfg) (s : State) (c c' : Nat)
     (h : Ev.result c' .timeout ∈ (stepS cfg s (.poll c)).log.drop s.log.length) :
-    c' = c ∧
+    c' = c ∧ (stepS cfg s (.poll c)).log = s.log ++ [Ev.result c .timeout] ∧
     ((s.fresh.contains c = true ∧ s.free = 0 ∧ cfg.maxWait = some 0) ∨
      (s.fresh.contains c = false ∧ s.assigned.contains c = false ∧ s.queue.contains c = true ∧
         ∃ d, lookup s.deadline c = some d ∧ d ≤ s.now)) :=
   poll_timeout_char cfg s c c' h
+
+/-- Every caller is in at most one phase (never polled / queued / handed a permit / running),
+in every reachable state. -/
+theorem one_phase (cfg : Cfg) (ops : List Op) (c : Nat) : occ (run cfg ops) c ≤ 1 :=
+  (inv2_reachable cfg ops).once c
+
+/-- **A rejected request never reaches the wrapped service.** In every reachable state (hence
+at every later time, whatever anybody does), a caller that has been answered with the
+wait-timeout error has no `inner_call` in the event log. -/
+theorem rejected_never_runs (cfg : Cfg) (ops : List Op) (c : Nat)
+    (h : Ev.result c .timeout ∈ (run cfg ops).log) : ∀ k, Ev.innerCall c k ∉ (run cfg ops).log :=
+  timeoutClean_reachable cfg ops c h
+
+/-- **A request cancelled while waiting never reaches the wrapped service.** If the caller is
+dropped while it has never been polled, is queued, or holds a permit it has not used yet,
+then after any continuation `ops'` there is still no `inner_call` for it. -/
+theorem cancelled_while_waiting_never_runs (cfg : Cfg) (ops ops' : List Op) (c : Nat)
+    (hw : (run cfg ops).fresh.count c + (run cfg ops).queue.count c + (run cfg ops).assigned.count c ≥ 1) :
+    ∀ k, Ev.innerCall c k ∉ (run cfg (ops ++ [.drop c] ++ ops')).log := by
+  have h2 := inv2_reachable cfg ops
+  obtain ⟨hk, ho, hn⟩ := drop_waiting_gone cfg (run cfg ops) c h2 hw
+  have := gone_forever cfg ops' _ c hk ho hn
+  simpa [run, List.foldl_append, NoCall] using this
 
 /-- Non-vacuity: a queued caller is rejected exactly at its deadline, not one ms earlier. -/
 example :
     let ops := [Op.arrive 1 ⟨100, .ok⟩, .arrive 2 ⟨0, .ok⟩, .poll 1, .poll 2, .adv 9, .poll 2]
     (run { max := 1, maxWait := some 10 } ops).queue = [2] ∧
     (run { max := 1, maxWait := some 10 } (ops ++ [.adv 1, .poll 2])).log.getLast? = some (.result 2 .timeout) := by
+  decide
+
+/-- Non-vacuity for the two "never runs" theorems: caller 2 is rejected, caller 3 is dropped while
+queued; afterwards the slot is free and a fresh caller is admitted, but neither 2 nor 3 ever
+reached the inner service. -/
+example :
+    let ops := [Op.arrive 1 ⟨100, .ok⟩, .arrive 2 ⟨0, .ok⟩, .arrive 3 ⟨0, .ok⟩, .poll 1, .poll 2, .poll 3, .adv 10, .poll 2]
+    let s := run { max := 1, maxWait := some 10 } ops
+    Ev.result 2 .timeout ∈ s.log ∧ s.queue.count 3 = 1 ∧
+    (run { max := 1, maxWait := some 10 } (ops ++ [.drop 3] ++ [.adv 100, .poll 1, .arrive 4 ⟨0, .ok⟩, .poll 4])).serial = 2 := by
   decide
 
 end TR.Props.C07
